@@ -388,6 +388,13 @@ def run(ctx: Ctx) -> None:
     n11 = default_dirs_agree(ctx, v_, "C02.R11")
     rep.floor("C02.R11", n11, 2)
 
+    if rep.prop == "C02":
+        from .common import share_rules
+        share_rules(ctx, "C01", "C02.R12", ["C01.R5"], "the blob of a kept call is stored under the key it is looked up with (memo protocol): a result stored under another key is "
+                    "never found again and the call is re-executed at every evaluation")
+        share_rules(ctx, "C09", "C02.R13", ["C09.R16"], "the call-site context of a kept call covers what the enclosing function did before the call - and nothing of what other "
+                    "branches of the evaluation did: an edit in an unrelated branch re-executes nothing here")
+        share_rules(ctx, "C14", "C02.R14", ["C14.R3"], "accept_module accepts the module it is given (its __name__), not its parent package: edits of non-accepted siblings re-execute nothing")
     # ---- R7: committed paths are those of the latest evaluation -------------------------------------------------
     from .c04 import commit_rules
     rep.rule("C02.R7", "as C04.R1: the complete path map is committed on every evaluation, cache hit or not: the key a later evaluation reads through "
